@@ -26,15 +26,17 @@
                                                                  (main and extra-precision tables)
     "generator (with its time/rate/enthalpy tables)"              section_roundtrip_GENER (main and extra-precision tables)
     "initial condition"                                           section_roundtrip_INCON
-    "history request"                                             section_roundtrip_FOFT_GOFT, section_roundtrip_COFT
+    "history request"                                             section_roundtrip_FOFT_GOFT, section_roundtrip_COFT, section_roundtrip_SHORT
+    "selection/diffusion entry"                                   section_roundtrip_SELEC, section_roundtrip_DIFFU, section_roundtrip_INDOM
+    "mesh-maker entry"                                            section_roundtrip_MESHM (RZ2D, XYZ, MINC)
+    MOP digit strings                                             options_roundtrip, section_roundtrip_MOMOP
     "block-name (A3,I2) fix/unfix on the way in and out"          block_name_cycle
     "the same sections in the same order"                         sections_preserved, insert_keeps_others,
                                                                  delete_keeps_order, update_sections_canonical
     "from then on every further cycle reproduces them"            write_read_fixpoint
     "both simulator flavours"                                     flavour_param_spec
     tie to the tables and dispatch of /repo                       all_records_wf, dispatch_as_modelled
-  Not proved as theorems (modelled and checked by the correspondence and the oracle only): the round trips of
-  SELEC, DIFFU, INDOM, SHORT, MESHM, MOMOP at section level, the
+  Not proved as theorems (modelled and checked by the correspondence and the oracle only): the
   composition of all section round trips into `read (write d) = canon d` for whole objects, the binary
   MESHA/MESHB pair, and idempotence of `canonV` on reals (C02's domain).
 -/
@@ -292,6 +294,74 @@ theorem section_roundtrip_INCON (es : List Incon) (hn : ∀ e ∈ es, GoodName e
             setIncon d0, rest) :=
   Proofs.T2.section_roundtrip_INCON incon_shape.1 incon_shape.2.1 incon_shape.2.2 es hn hw d0 rest
 
+/-- **section_roundtrip_INDOM** (current main table) -/
+theorem section_roundtrip_INDOM (d : Indom) (hg : ∀ e ∈ d, GoodIndom (mf c!"indom2" 0) e)
+    (hw : ∀ e ∈ d, ∃ ls, writeIndomEntry mainTabs e = .ok ls) (d0 : Indom) (rest : List Str) :
+    readIndom .default mainTabs d0
+        ((d.map (fun e => match writeIndomEntry mainTabs e with | .ok ls => ls | .error _ => [])).flatten ++ nl [] :: rest) =
+      .ok ((d.map (fun e => (e.1, e.2.map (canonV (mf c!"indom2" 0))))).foldl setIndom d0, rest) :=
+  let h := chunkRec_of mainTabs c!"indom2" 4 (main_chunks_ok _ (by decide))
+  Proofs.T2.section_roundtrip_INDOM h.1 h.2 d hg hw d0 rest
+
+/-- **the MOP digits read back** (PARAM's 24 options, MOMOP's 21): for one-digit options the digit string written
+    decodes to the options — no side condition beyond `GoodOptions` -/
+theorem options_roundtrip {n : Nat} {opts : List Int} (h : GoodOptions n opts) :
+    (digitsOfOptions opts).length = n ∧ '\n' ∉ digitsOfOptions opts ∧ optionsOfStr (digitsOfOptions opts) n = .ok opts :=
+  Proofs.T2.options_roundtrip h
+
+/-- **section_roundtrip_MOMOP** (current main table) -/
+theorem section_roundtrip_MOMOP (d d0 : T2Data) (hg : GoodOptions 21 d.moreOption) {lines : List Str}
+    (hw : writeMoreOptions mainTabs d = .ok lines) (rest : List Str) :
+    ∃ body, lines = nl c!"MOMOP" :: body ∧
+      readMoreOptions .default mainTabs d0 (body ++ rest) = .ok ({ d0 with moreOption := d.moreOption }, rest) :=
+  let h := momop_shape
+  Proofs.T2.section_roundtrip_MOMOP h.1 h.2.1 h.2.2.1 h.2.2.2.1 h.2.2.2.2.1 h.2.2.2.2.2 d d0 hg hw rest
+
+/-- **section_roundtrip_SELEC** (current main table) -/
+theorem section_roundtrip_SELEC (s : Selection) (hg : GoodSelection (mf c!"selec1" 0) s) {lines : List Str}
+    (hw : writeSelection mainTabs (some s) = .ok lines) (rest : List Str) :
+    ∃ body, lines = nl c!"SELEC" :: body ∧
+      readSelection .default mainTabs (body ++ rest) =
+        .ok ({ integer := s.integer.map (canonV (mf c!"selec1" 0)) ++ List.replicate (16 - s.integer.length) Val.none,
+               float := s.float.map (canonV (mf c!"selec2" 0)) ++
+                 List.replicate (((s.float.length + 8 - 1) / 8) * 8 - s.float.length) Val.none }, rest) :=
+  let h1 := chunkRec_of mainTabs c!"selec1" 16 (main_chunks_ok _ (by decide))
+  let h2 := chunkRec_of mainTabs c!"selec2" 8 (main_chunks_ok _ (by decide))
+  Proofs.T2.section_roundtrip_SELEC h1.1 h2.1 h1.2 h2.2 s hg hw rest
+
+/-- **section_roundtrip_DIFFU** (current main table; MULTI read before) -/
+theorem section_roundtrip_DIFFU (multi : Dict) (rows : List (List Val)) (hne : rows ≠ []) (np : Nat)
+    (hnc : multi.get c!"num_components" = some (.int (Int.ofNat rows.length)))
+    (hnp : multi.get c!"num_phases" = some (.int (Int.ofNat np)))
+    (hrow : ∀ row ∈ rows, row.length = np ∧ np ≤ 8) {lines : List Str} (hw : writeDiffusion mainTabs rows = .ok lines)
+    (rows0 : List (List Val)) (rest : List Str) :
+    ∃ body, lines = nl c!"DIFFU" :: body ∧
+      readDiffusion .default mainTabs multi rows0 (body ++ rest) =
+        .ok (rows0 ++ rows.map (·.map (canonV (mf c!"diffusion" 0))), rest) :=
+  let h := chunkRec_of mainTabs c!"diffusion" 8 (main_chunks_ok _ (by decide))
+  Proofs.T2.section_roundtrip_DIFFU h.1 h.2 multi rows hne np hnc hnp hrow hw rows0 rest
+
+/-- **section_roundtrip_SHORT** (current main table; in-file mesh and generators already read): header line with
+    the frequency in columns 6-7, then the ELEME / CONNE / GENER lists, each name resolved against the object -/
+theorem section_roundtrip_SHORT (blocks : List Block) (conns : List Conn) (gens : List Gener) (s s0 : Short)
+    (hg : GoodShort blocks conns gens s) (rest : List Str) :
+    ∃ header body, writeShort s = .ok (header :: body) ∧
+      readShort .default mainTabs blocks conns gens s0 header (body ++ rest) =
+        .ok ((gsOf s).foldl ShortGrp.apply { s0 with frequency := some (canonFreq s) }, rest) :=
+  Proofs.T2.section_roundtrip_SHORT short_shape blocks conns gens s s0 hg rest
+
+/-- **section_roundtrip_MESHM** (current main table): any sequence of RZ2D (RADII / EQUID / LOGAR … LAYER), XYZ and
+    MINC blocks under MESHMAKER reads back block by block; the closing blank line is consumed -/
+theorem section_roundtrip_MESHM (mm : List MeshMaker) (lss : List (List Str))
+    (hw : mm.mapM (writeMeshEntry mainTabs) = .ok lss)
+    (hg : ∀ m ∈ mm, GoodMesh (recOf mainTabs c!"equid") (recOf mainTabs c!"logar") (mf c!"radii2" 0) (mf c!"xyz2" 0)
+            (mf c!"xyz2" 2) (mf c!"xyz2" 3) (mf c!"part1" 1) (mf c!"part1" 2) m)
+    (fuel : Nat) (hf : mm.length < fuel) (acc : List MeshMaker) (rest : List Str) :
+    readMeshMaker .default mainTabs fuel acc (lss.flatten ++ nl [] :: rest) =
+      .ok (acc ++ mm.map (canonMesh (recOf mainTabs c!"equid") (recOf mainTabs c!"logar") (mf c!"radii2" 0) (mf c!"layer2" 0)
+              (mf c!"xyz1" 0) (mf c!"xyz2" 3) (mf c!"xyz3" 0) (mf c!"part1" 0) (mf c!"part1" 3) (mf c!"part2" 0)), rest) :=
+  Proofs.T2.section_roundtrip_MESHM mesh_shapes mm lss hw hg fuel hf acc rest
+
 /-- **section_roundtrip_FOFT / GOFT**: names in order, as names (no grid yet) or as the grid's blocks -/
 theorem section_roundtrip_FOFT_GOFT (kw : Str) (items : List HItem) (hne : items ≠ [])
     (hv : ∀ i ∈ items, Visible i.name) (blocks : List Block) (rest : List Str) :
@@ -435,6 +505,47 @@ example : GoodParam (p1rec exParam) (recOf mainTabs c!"param2") (fieldAt mainTab
     tsVals := by decide +kernel, diVals := by decide +kernel }
 example : ∃ ls, writeParameters mainTabs exParam = .ok ls ∧ ls.length = 8 := by
   refine ⟨(match writeParameters mainTabs exParam with | .ok l => l | .error _ => []), ?_, ?_⟩ <;> decide +kernel
+-- the new `Good…` hypotheses are satisfiable
+example : GoodIndom (mf c!"indom2" 0) (c!"rock1", [.real 100000, .real 20]) :=
+  ⟨rfl, by decide +kernel, by decide, by decide +kernel⟩
+example : GoodOptions 21 [0, 1, 0, 0, 0, 0, 0, 0, 0, 0, 2, 2, 2, 0, 0, 0, 5, 0, 0, 0, 1, 9] := ⟨rfl, rfl, by decide⟩
+example : GoodSelection (mf c!"selec1" 0) ⟨[.int 2, .none, .int 7], [.real 1, .real 2, .real 3, .real 4, .real 5, .real 6, .real 7, .real 8, .real 9]⟩ :=
+  ⟨⟨_, rfl⟩, by decide, by decide +kernel⟩
+def exShort : Short := { frequency := some (.int 5), block := some [c!"abc05", c!"xyz 1"], connection := some [(c!"abc05", c!"xyz 1")], generator := none }
+example : GoodShort [{ exBlock with name := c!"abc 5" }, { exBlock with name := c!"xyz 1" }]
+    [{ b1 := c!"abc 5", b2 := c!"xyz 1", nseq := .none, nad1 := .none, nad2 := .none, direction := .int 3, dist := [], area := .none, dircos := .none, sigma := .none }]
+    [] exShort :=
+  ⟨rfl, ⟨[' ', '5'], by decide +kernel, Or.inr rfl⟩, by
+    intro g hg
+    simp only [gsOf, exShort, List.append_nil, List.cons_append, List.nil_append, List.mem_cons, List.not_mem_nil, or_false] at hg
+    rcases hg with rfl | rfl
+    · intro n hn
+      simp only [List.mem_cons, List.not_mem_nil, or_false] at hn
+      rcases hn with rfl | rfl <;> exact ⟨⟨rfl, by decide +kernel⟩, by unfold NotSubKw; decide +kernel, by decide +kernel⟩
+    · intro p hp
+      simp only [List.mem_cons, List.not_mem_nil, or_false] at hp
+      subst hp
+      exact ⟨⟨rfl, by decide +kernel⟩, rfl, by unfold NotSubKw; decide +kernel, by decide +kernel⟩⟩
+def exMesh : List MeshMaker :=
+  [.rz2d [.radii [.real 0, .real 100], .equid [(c!"nequ", .int 20), (c!"dr", .real 10)], .layer [.real 500]],
+   .xyz (.real 0) [{ ntype := .str c!"NX", no := .int 3, del := .real 0, deli := some [.real 1, .real 2, .real 3] },
+                   { ntype := .str c!"NZ", no := .int 9, del := .real 10, deli := none }],
+   .minc { type := .str c!"ONE-D", dual := .str c!"     ", numContinua := .int 2, where_ := .str c!"OUT ", spacing := [.real 50], vol := [.real (1/20), .real (19/20)] }]
+example : ∀ m ∈ exMesh, GoodMesh (recOf mainTabs c!"equid") (recOf mainTabs c!"logar") (mf c!"radii2" 0) (mf c!"xyz2" 0)
+    (mf c!"xyz2" 2) (mf c!"xyz2" 3) (mf c!"part1" 1) (mf c!"part1" 2) m := by
+  intro m hm
+  simp only [exMesh, List.mem_cons, List.not_mem_nil, or_false] at hm
+  rcases hm with rfl | rfl | rfl
+  · exact ⟨by simp only [GoodRZSub]; decide +kernel, by simp only [GoodRZSub]; decide +kernel, trivial⟩
+  · intro s hs
+    simp only [List.mem_cons, List.not_mem_nil, or_false] at hs
+    rcases hs with rfl | rfl
+    · exact ⟨⟨_, rfl, by decide +kernel, by decide, by decide +kernel⟩, ⟨3, rfl, by decide +kernel⟩, by decide +kernel, by decide +kernel⟩
+    · exact ⟨⟨_, rfl, by decide +kernel, by decide, by decide +kernel⟩, ⟨9, rfl, by decide +kernel⟩, by decide +kernel, by decide +kernel⟩
+  · exact ⟨⟨_, _, _, _, _, rfl, by decide, by decide⟩, Or.inl rfl, ⟨_, rfl, by decide +kernel, by decide⟩, by decide, by decide +kernel⟩
+example : ∃ lss, exMesh.mapM (writeMeshEntry mainTabs) = .ok lss := by
+  refine ⟨(match exMesh.mapM (writeMeshEntry mainTabs) with | .ok l => l | .error _ => []), ?_⟩
+  decide +kernel
 -- visible history items
 example : Visible c!"abc12" := ⟨rfl, by decide +kernel⟩
 -- a one-section chain for `sections_preserved`: a file `START / ENDCY`
